@@ -656,9 +656,9 @@ def run(chk, pid):
     if pid == "C10":
         specs = gap_specs(chk, with_remove=True) + specs
     if pid == "C03":
-        specs = f3b_specs(chk) + specs
+        specs = f3b_specs(chk) + gap_specs(chk) + lazy_writer_specs(chk) + specs
     if pid == "C07":
-        specs = gap_specs(chk) + specs
+        specs = gap_specs(chk) + full_comment_specs(chk) + specs
     chk.rule = ("operation histories: exhaustive over {add,replace,set} x 3 types x 2 sizes + remove x 3 types up to the stated "
                 "length on crafted files N in {1,2,3} (empty / one opaque block), random histories (2-25 calls, 1-6 contexts, "
                 "all nine block types, opaque pre-populated blocks, full tables, rejected calls of every cause injected) on "
@@ -746,24 +746,68 @@ def gap_specs(chk, with_remove=False):
     rng = common.rng_for(chk.seed, "gap")
     out = []
     pool = make_pool(rng, ["EV", "D3", "FT", "EM"])
-    for j, (n, gap_at, nlive) in enumerate([(4, 1, 3), (5, 0, 3), (3, 1, 3), (14, 2, 5), (4, 2, 4)]):
+    for j, (n, gap_at, nlive) in enumerate([(4, 1, 3), (5, 0, 3), (3, 1, 3), (14, 2, 5), (4, 2, 4),
+                                            (5, (1, 2), 4), (6, (0, 1), 3), (14, (1, 2, 3), 5), (5, (2, 3), 5)]):
         p = os.path.join(chk.work, "gap%d.tdf" % j)
         kinds = ["EV", "D3", "EM", "FT", "OS"][:nlive]
         craft_file(p, n, [])
         ops = [("add", pool.get(k, [container.small_block(k, rng, 1)])[-1], "g%d" % i) for i, k in enumerate(kinds)]
         container.run_impl(p, [ops])
         raw = bytearray(open(p, "rb").read())
-        o = 64 + 288 * gap_at
-        struct.pack_into("<IIii", raw, o, 0, 0, struct.unpack_from("<i", raw, o + 8)[0], 0)     # slot becomes unused, size 0
+        gaps = (gap_at,) if isinstance(gap_at, int) else gap_at          # one slot, or a hole several slots wide
+        for g in gaps:
+            o = 64 + 288 * g
+            struct.pack_into("<IIii", raw, o, 0, 0, struct.unpack_from("<i", raw, o + 8)[0], 0)     # slot becomes unused, size 0
         open(p, "wb").write(bytes(raw))
-        live = [k for i, k in enumerate(kinds) if i != gap_at]
+        live = [k for i, k in enumerate(kinds) if i not in gaps]
+        gap_at = gaps[0]
         before = [k for i, k in enumerate(kinds) if i < gap_at]
         rem = [("remove", blocks.TY[k]) for k in live] if with_remove else []
         for op in (rem + [("replace", rng.choice(pool[k]), None) for k in live if k in pool] +
                    [("set", rng.choice(pool[k])) for k in live if k in pool and k in SETTER] +
                    [("add", container.small_block("PC", rng, 1), None), ("set", container.small_block("PD", rng, 1))]):
-            out.append(("unused slot %d between live blocks, N=%d" % (gap_at, n), p, [[op, ("add", container.small_block("CA", rng, 1), "after")]],
+            out.append(("unused slot(s) %r between live blocks, N=%d" % (list(gaps), n), p, [[op, ("add", container.small_block("CA", rng, 1), "after")]],
                         "gap in the table"))
+    return out
+
+
+def lazy_writer_specs(chk):
+    """compact foreign files whose writer maintains only the FIRST free slot's offset (the later unused slots still
+    carry the end-of-table value): the library copes with them — every add re-points the later slots"""
+    import struct
+    rng = common.rng_for(chk.seed, "lazy")
+    out = []
+    pool = make_pool(rng, ["EV", "D3", "FT", "EM"])
+    for j, n in enumerate((3, 5, 14)):
+        p = os.path.join(chk.work, "lazy%d.tdf" % j)
+        craft_file(p, n, opaque_live(rng, 1))
+        raw = bytearray(open(p, "rb").read())
+        base = 64 + 288 * n
+        for k in range(2, n):                                   # slots after the first free one
+            struct.pack_into("<i", raw, 64 + 288 * k + 8, base)
+        open(p, "wb").write(bytes(raw))
+        ops = [("add", pool["EV"][1], None), ("add", pool["D3"][2], "x"), ("set", pool["FT"][1]), ("add", pool["EM"][1], None)][:n - 1]
+        out.append(("compact, only the first free slot maintained, N=%d" % n, p, [ops[:2], ops[2:]] if len(ops) > 2 else [ops], "lazy foreign writer"))
+    return out
+
+
+def full_comment_specs(chk):
+    """C07: a foreign entry whose 256-byte comment field is completely filled (no terminator): it reads as 256
+    characters, which cannot be written back — replacing that block without a new comment must be refused
+    before anything is touched"""
+    rng = common.rng_for(chk.seed, "fullcomment")
+    out = []
+    pool = make_pool(rng, ["EV", "D3", "EM"])
+    for j, k in enumerate(("EV", "D3", "EM")):
+        p = os.path.join(chk.work, "fullc%d.tdf" % j)
+        craft_file(p, 4, [])
+        container.run_impl(p, [[("add", pool[k][1], "c"), ("add", pool["EV" if k != "EV" else "EM"][2], None)]])
+        raw = bytearray(open(p, "rb").read())
+        raw[64 + 32: 64 + 288] = bytes(0x41 + (i % 26) for i in range(256))       # slot 0's comment: 256 letters, no NUL
+        open(p, "wb").write(bytes(raw))
+        for op in ([("replace", pool[k][2], None)] + ([("set", pool[k][2])] if k in SETTER else []) + [("replace", pool[k][2], "fresh")]):
+            out.append(("slot 0 carries a 256-character comment (no terminator)", p, [[op, ("add", container.small_block("PC", rng, 1), None)]],
+                        "unterminated comment field"))
     return out
 
 
